@@ -100,7 +100,11 @@ def handleTables : Handler := fun input impl =>
         let panicOk := σ.panic.isNone
         -- the resolution core (`Scope/Core.lean`, the machine `Props/C01.lean` proves equal to Lua's resolver):
         -- every read it records, with the local declaration it denotes, against the implementation's read references
-        let coreRefs : List (Nat × Option Nat) := (Core.analyse chunk.block).refs.map fun r => (r.tok, Core.localBinding r)
+        let coreSt := @Core.analyse ⟨fun _ => true⟩ chunk.block
+        let coreRefs : List (Nat × Option Nat) := (coreSt.refs.filter fun r => !r.decl).map fun r => (r.tok, Core.localBinding r)
+        -- … and every declaration it records, with the local declaration it shadows (`Props/C03.lean`), against
+        -- `ScopeManager.variables[*].shadowed` (globals the file assigns are no declarations, `...` is of no interest)
+        let coreDecls : List (Nat × Option Nat) := coreSt.shadows
         let globalVars : List Nat := ivars.filterMap fun v => match v with
           | .list [_, id, _, _, _, g] => if g.asBool? == some true then id.asNat? else none
           | _ => none
@@ -111,8 +115,15 @@ def handleTables : Handler := fun input impl =>
                 | none => none)
             | _, _ => none
           | _ => none
+        let implDecls : List (Nat × Option Nat) := ivars.filterMap fun v => match v with
+          | .list [n, id, sh, _, _, g] =>
+            if g.asBool? == some true || n.asString? == some "..." then none
+            else id.asNat?.map fun i => (i, match sh.asNat? with
+              | some d => if globalVars.contains d then none else some d
+              | none => none)
+          | _ => none
         let showAns := fun (l : List (Nat × Option Nat)) => sortStrs (l.map fun (t, b) => s!"{t}->{optNat b}")
-        let coreOk := showAns coreRefs == showAns implReads
+        let coreOk := showAns coreRefs == showAns implReads && showAns coreDecls == showAns implDecls
         -- ---------- specification checks on the implementation's tables / diagnostics ----------
         let declToks := spec.decls.map (·.tok)
         -- implementation's view: token ↦ resolved declaration token (only script declarations count as local bindings)
@@ -218,7 +229,7 @@ def handleTables : Handler := fun input impl =>
           model := (if md == idk then "" else "DEFAULT-CONFIG-DIAGS ") ++ (if panicOk then "" else s!"MODEL-PANIC {repr σ.panic} ") ++
                    (if refsOk then "" else s!"REFS model {mrefs} ") ++ (if varsOk then "" else s!"VARS model {mvars} ") ++
                    (if callsOk then "" else s!"CALLS model {mcalls} ") ++
-                   (if coreOk then "" else s!"CORE model {showAns coreRefs} impl {showAns implReads} ") ++ (if diagsOk then "" else s!"DIAGS model {md} impl {idk}"),
+                   (if coreOk then "" else s!"CORE model reads {showAns coreRefs} impl {showAns implReads} decls {showAns coreDecls} impl {showAns implDecls} ") ++ (if diagsOk then "" else s!"DIAGS model {md} impl {idk}"),
           tags }
       | _ => .malformed "tables impl"
     | _, _ => .malformed "tables chunk"
